@@ -307,6 +307,8 @@ def scenario(case, files):
         r.s._plog_add('HelloOk')
         submit(r, npend)
         m = Manager(r.s, dh, timeout=case.get('rpc_timeout', 0.5))
+        if case.get('stream'):
+            r.peer.start_stream(); time.sleep(0.1)       # the peer keeps sending while the session is being closed
         try:
             if path == 'close_session':
                 r.s._plog_add('CsBegin'); m.close_session()
@@ -316,6 +318,9 @@ def scenario(case, files):
             else:
                 with m:
                     r.s._plog_add('MgrExit', 1); r.s._plog_add('CsBegin')
+                    if case.get('body_exc') == 'transport':
+                        from ncclient.transport.errors import TransportError
+                        raise TransportError('another device dropped its connection')   # not this session's failure
                     raise KeyError('body failed')
         except Exception as e:
             r.raised = type(e).__name__
@@ -573,6 +578,8 @@ def gen_cases(kind, rng, thorough):
         for path in ('close_session', 'with_ok', 'with_exc'):
             for n in ((0, 2) if not thorough else (0, 1, 3)):
                 cs.append(dict(transport=kind, path=path, close_rpc=cr, pending=n, rpc_timeout=0.3))
+    cs.append(dict(transport=kind, path='with_exc', close_rpc='ok_close', pending=0, rpc_timeout=0.3, body_exc='transport'))
+    cs.append(dict(transport=kind, path='close_session', close_rpc='ok_close', pending=0, rpc_timeout=1.0, stream=True))
     for h in ('silent', 'garbage_eof', 'eof'):
         cs.append(dict(transport=kind, path='failed_hello', hello=h))
     if kind == 'unix': cs.append(dict(transport=kind, path='failed_connect', fault='nolistener'))
@@ -671,7 +678,8 @@ def run(ctx):
     if not thorough and not (ctx.failures or len(ctx.disagreements) >= 3):
         # quick tier: the SSH transport is represented by its three most distinctive paths
         for case in (dict(transport='ssh', path='failed_connect', fault='badpw'), dict(transport='ssh', path='close', pending=1),
-                     dict(transport='ssh', path='close_session', close_rpc='ok_close', pending=0, rpc_timeout=0.3)):
+                     dict(transport='ssh', path='close_session', close_rpc='ok_close', pending=0, rpc_timeout=0.3),
+                     dict(transport='ssh', path='close_session', close_rpc='ok_close', pending=0, rpc_timeout=1.0, stream=True)):
             res = check_case(ctx, case, files, ctx.model)
             ctx.count(case); ctx.hist('transport', 'ssh'); ctx.hist('path', case['path'])
             ctx.traces += 1 if res['model'] is not None and res['model'].get('accepted') else 0
